@@ -143,8 +143,49 @@ def rule_row_select(ctx):
         ctx.fail("FromSerializableRegistry.DataFrame: the None-restoring .loc store was not found")
 
 
+def rule_value_fidelity(ctx):
+    """special values and dtypes are written in the form the reader understands"""
+    R = "VALUE-FIDELITY"
+    ctx.rule(R, "PPJSONEncoder.floatstr writes NaN / +inf / -inf as the JSON extensions 'NaN' / 'Infinity' / '-Infinity' (json.loads reads them "
+                "back as floats; 'null' would come back as None); to_dict_with_coord_transform (pickle) records the dtype objects of the "
+                "columns, not their names (a categorical dtype is its categories and order); to_dict_of_dfs does not override the caller's "
+                "include_* switches")
+    m = ctx.repo.module(IO)
+    enc = next((f for f in m.functions.values() if f.qualname.endswith("PPJSONEncoder.iterencode")), None)
+    if enc is None:
+        ctx.fail("PPJSONEncoder.iterencode vanished")
+    fs = next((n for n in ast.walk(enc.node) if isinstance(n, ast.FunctionDef) and n.name == "floatstr"), None)
+    if fs is None:
+        ctx.fail("PPJSONEncoder.iterencode: floatstr vanished")
+    got = {}
+    for n in ast.walk(fs):
+        if isinstance(n, ast.If):
+            t = ast.unparse(n.test).replace(" ", "")
+            val = next((st.value.value for st in n.body if isinstance(st, ast.Assign) and ast.unparse(st.targets[0]) == "text" and isinstance(st.value, ast.Constant)), None)
+            if val is not None:
+                got[t] = val
+    want = {"pd.isna(o)": "NaN", "o==_inf": "Infinity", "o==_neginf": "-Infinity"}
+    for t, v in want.items():
+        ctx.ob(R, f"{IO}::PPJSONEncoder.iterencode::floatstr:{t}", got.get(t) == v, f"{t} -> {got.get(t)!r} (reader expects {v!r})", enc.loc(fs))
+    fp = ctx.repo.func(f"{IO}:to_dict_with_coord_transform")
+    dt = [n for n in ast.walk(fp.node) if isinstance(n, ast.Dict) and any(isinstance(k, ast.Constant) and k.value == "dtypes" for k in n.keys)]
+    if not dt:
+        ctx.fail("to_dict_with_coord_transform: 'dtypes' entry not found")
+    v = ast.unparse(dt[0].values[[k.value if isinstance(k, ast.Constant) else None for k in dt[0].keys].index("dtypes")]).replace(" ", "")
+    ctx.ob(R, f"{IO}::to_dict_with_coord_transform::dtypes", "astype(" not in v and "str(" not in v and "item.dtypes" in v,
+           f"'dtypes': {v}", fp.loc(dt[0]))
+    fd = ctx.repo.func(f"{IO}:to_dict_of_dfs")
+    params = {a.arg for a in fd.node.args.args if a.arg.startswith("include_")}
+    rebound = sorted({t.id for st in ast.walk(fd.node) if isinstance(st, (ast.Assign, ast.AugAssign))
+                      for t in (st.targets if isinstance(st, ast.Assign) else [st.target]) if isinstance(t, ast.Name) and t.id in params})
+    ctx.ob(R, f"{IO}::to_dict_of_dfs::switches", not rebound and len(params) >= 2,
+           f"include_* parameters {sorted(params)} are not rebound" if not rebound else
+           f"{rebound} is overridden inside to_dict_of_dfs: tables the caller asked for are silently left out of the file", fd.loc())
+
+
 def run(ctx):
     rule_std_precedence(ctx)
+    rule_value_fidelity(ctx)
     rule_row_select(ctx)
     ctx.assume("decides agreement of the writer and reader tables (metadata keys, signatures, coding sets), not value equality")
     m = ctx.repo.module(IO)
@@ -291,6 +332,9 @@ def variants(repo):
     fio = "pandapower/file_io.py"
     V = Variant
     return [
+        V("free NaN written as null", io, replace_once("                text = 'NaN'", "                text = 'null'"), "VALUE-FIDELITY"),
+        V("pickle records dtype names", io, replace_once('"dtypes": dict(zip(item.columns, item.dtypes))}', '"dtypes": dict(zip(item.columns, item.dtypes.astype(str)))}'), "VALUE-FIDELITY"),
+        V("results dropped when not converged", io, in_function("to_dict_of_dfs", replace_once("    parameters = {}  # pd.DataFrame(columns=[\"parameter\"])\n", "    parameters = {}\n    if include_results and not net.get(\"converged\", True):\n        include_results = False\n")), "VALUE-FIDELITY"),
         V("None restored by index label", io, replace_once("df.loc[pd.isnull(df[col]), col] = None", "df.loc[df.index[pd.isnull(df[col])], col] = None"), "ROW-SELECT"),
         V("twin: mask in a local", io, replace_once("            df.loc[pd.isnull(df[col]), col] = None", "            isnull = pd.isnull(df[col])\n            df.loc[isnull, col] = None"), None),
         V("library types override saved types", fio, replace_once("net.std_types[key] = dict(std_types, **net.std_types[key])", "net.std_types[key] = dict(net.std_types[key], **std_types)"), "STD-PRECEDENCE"),
